@@ -171,6 +171,10 @@ class Vals:
         return out
 
     def root_place(self, place, depth=0):
+        if place["p"] and depth < 40:
+            p2 = self.through_aggregate(place)
+            if p2 is not place:
+                return self.root_place(p2, depth + 1)
         l = place["l"]
         path = self._proj_path(place["p"])
         return self._root_local(l, depth).with_path(path)
@@ -302,7 +306,34 @@ class Vals:
             return None
         return self.classify_bool(t["discr"])
 
+    def through_aggregate(self, place):
+        """A place `t.i…` where t is built once as a tuple / struct aggregate denotes the operand moved into that field: returns the
+        underlying place when that operand is itself a place, else the place unchanged."""
+        for _ in range(6):
+            flds = [e for e in place["p"] if e["k"] != "deref"]
+            if not flds or flds[0]["k"] != "field":
+                return place
+            rv = self.def_rvalue(place["l"])
+            if not rv or rv["k"] != "aggregate":
+                return place
+            name = flds[0]["name"]
+            op = None
+            if "fields" in rv and name in (rv.get("fields") or []):
+                op = rv["ops"][rv["fields"].index(name)]
+            elif rv.get("agg") == "tuple":
+                try:
+                    op = rv["ops"][int(name)]
+                except (ValueError, IndexError):
+                    op = None
+            if op is None or op["k"] not in ("copy", "move"):
+                return place
+            rest = place["p"][place["p"].index(flds[0]) + 1:]
+            place = {"l": op["place"]["l"], "p": list(op["place"]["p"]) + rest}
+        return place
+
     def classify_bool(self, operand, depth=0):
+        if operand["k"] in ("copy", "move"):
+            operand = dict(operand, place=self.through_aggregate(operand["place"]))
         r = self.root(operand)
         ct = self.call_term(r)
         if ct is not None:
@@ -313,7 +344,8 @@ class Vals:
                 if rv["k"] == "binop":
                     return ("binop", rv)
                 if rv["k"] == "discr":
-                    return ("discr", self.root_place(rv["place"]), rv["place"])
+                    pl = self.through_aggregate(rv["place"])
+                    return ("discr", self.root_place(pl), pl)
                 if rv["k"] == "unop" and rv["op"] == "Not" and depth < 5:
                     return ("not", self.classify_bool(rv["a"], depth + 1))
         return ("other", r)
